@@ -343,3 +343,8 @@ pub fn replay(_ctx: &Ctx, case: &Value) -> Result<Vec<Finding>, String> {
     let c: Case = serde_json::from_value(case.clone()).map_err(|e| format!("bad C12 case: {e}"))?;
     Ok(eval(&c).0)
 }
+
+/// seed encodings for C15
+pub fn encode_public(c: &Case) -> Result<Vec<u8>, String> {
+    Ok(build(c)?.value.to_vec())
+}
